@@ -280,6 +280,8 @@ pub fn run_c01(out: &mut Out, tier: &str, seed: u64) {
             }
         }
     }
+    crate::objapi::boxes(out, &mut rng);
+    crate::objapi::classic_box_forms(out, &mut rng);
 }
 
 /// One tamper family over secretbox / box / sealed box: every single-bit flip of every component,
